@@ -110,7 +110,7 @@ def size_desc(n):
     return show(n)[:40]
 
 
-def codec_events(fn, writer):
+def codec_events(fn, writer, with_block=False):
     """Ordered codec events of a function: ('buf', descriptor, innermost macro) / ('call', normalised callee)."""
     order = scantab.rpo(fn)
     evs = []
@@ -118,10 +118,12 @@ def codec_events(fn, writer):
     for (b, i, r, n) in fn.calls():
         c = n.get("callee")
         if c == bufname and len(n.get("args", [])) >= 3:
-            evs.append((order.get(b.id, 1 << 30), i, n["id"], ("buf", size_desc(n["args"][2]), tuple(n.get("ms") or ()), n.get("l"))))
+            evs.append((order.get(b.id, 1 << 30), i, n["id"], ("buf", size_desc(n["args"][2]), tuple(n.get("ms") or ()), n.get("l")), b.id))
         elif c in ("cif_list_serialize", "cif_list_deserialize", "cif_table_serialize", "cif_table_deserialize"):
-            evs.append((order.get(b.id, 1 << 30), i, n["id"], ("call", c.replace("deserialize", "serialize"), tuple(n.get("ms") or ()), n.get("l"))))
+            evs.append((order.get(b.id, 1 << 30), i, n["id"], ("call", c.replace("deserialize", "serialize"), tuple(n.get("ms") or ()), n.get("l")), b.id))
     evs.sort()
+    if with_block:
+        return [e[3] + (e[4],) for e in evs]
     return [e[3] for e in evs]
 
 
@@ -214,13 +216,18 @@ def run(prog, chk):
         def macro_seq(fn, writer):
             seq = []
             seen = set()
-            for (k, d, ms, l) in codec_events(fn, writer):
+            last = None
+            for (k, d, ms, l, bid) in codec_events(fn, writer, with_block=True):
                 outer = [x for x in ms if x in CODEC_MACROS]
                 if outer:
                     top = outer[-1]
                     if (top, l) not in seen:
                         seen.add((top, l))
+                        # the same codec on the other arm of a branch fills the same slot
+                        if last is not None and last[0] == top and cfgq.exclusive(fn, last[1], bid):
+                            continue
                         seq.append(top.replace("DESERIALIZE", "SERIALIZE"))
+                        last = (top, bid)
             return seq
         ws_, rs2 = macro_seq(wf, True), macro_seq(rf, False)
         if ws_ == rs2 and ws_:
@@ -376,6 +383,149 @@ def run(prog, chk):
                   "was read from (keys keep their original spelling, numbers their digit strings)", primary=False, floor=5)
     if memrules.dup_field_correspondence(prog, r7) < 5:
         raise Broken("fewer than 5 duplicated-field stores found")
+
+    r9 = chk.rule("R9-string-field-order", "serialiser and deserialiser of one object agree on the order of its strings (a table "
+                  "entry's normalised key, then its original spelling, then the value's text)", primary=False, floor=3)
+    if ustring_field_order(prog, r9) < 3:
+        raise Broken("fewer than 3 serialise/deserialise pairs")
+
+    r8 = chk.rule("R8-sign-recomputed-from-sign-carrier", "the sign of a number is not stored: every GET_VALUE_PROPS expansion recomputes "
+                  "it from the stored field that carries it (the text), never from the digit strings or scale",
+                  primary=False, floor=3)
+    if sign_source_rule(prog, r8) < 3:
+        raise Broken("fewer than 2 sign recomputations found in GET_VALUE_PROPS expansions")
+
+
+def ustring_field_order(prog, rule):
+    """The strings of one serialised object are told apart only by their position: the n-th string a serialiser writes must be
+    the field the deserialiser stores the n-th string it reads into (locals are followed to the fields they are assigned to)."""
+    n_pairs = 0
+
+    def last(pth):
+        return re.split(r"->|\.", pth)[-1] if pth else None
+
+    def arms(e):
+        """expressions a (possibly conditional) expression can evaluate to, NULL constants dropped"""
+        e = strip(e)
+        if isinstance(e, dict) and e.get("k") == "cond":
+            return arms(e.get("then")) + arms(e.get("else"))
+        if isinstance(e, dict) and const(e) == 0:
+            return []
+        return [e]
+
+    for wn, rn in (("cif_table_serialize", "cif_table_deserialize"), ("cif_list_serialize", "cif_list_deserialize"),
+                   ("cif_value_serialize", "cif_value_deserialize")):
+        wf, rf = prog.fn(wn), prog.fn(rn)
+        worder, rorder = scantab.rpo(wf), scantab.rpo(rf)
+        wseq = []
+        for (b, i, r, n) in wf.eval_sites("decl"):
+            if "SERIALIZE_USTRING" not in (n.get("ms") or []):
+                continue
+            for v in n.get("vars", []):
+                if v.get("t", "").replace(" ", "").startswith("constUChar*") and v.get("init") is not None:
+                    fields = {last(path(a)) for a in arms(v["init"]) if path(a)}
+                    wseq.append((worder.get(b.id, 1 << 30), i, n.get("l"), fields, b.id))
+        wseq.sort(key=lambda t: t[:2])
+        merged = []
+        for w in wseq:
+            if merged and cfgq.exclusive(wf, merged[-1][4], w[4]):
+                merged[-1] = merged[-1][:3] + (merged[-1][3] | w[3], merged[-1][4])     # alternative arms of one slot
+            else:
+                merged.append(w)
+        wseq = merged
+        # reader: destination of each DESERIALIZE_USTRING, locals resolved through `obj->field = local` stores
+        local_fields = {}
+        for (b, i, r, a) in rf.eval_sites("asg"):
+            lp = path(strip(a.get("lhs")))
+            if not lp or ("->" not in lp and "." not in lp) or a.get("op") != "=":
+                continue
+            for x in arms(a.get("rhs")):
+                xp = path(x)
+                if xp and re.match(r"^\w+$", xp):
+                    local_fields.setdefault(xp, set()).add(last(lp))
+        rseq = []
+        for (b, i, r, a) in rf.eval_sites("asg"):
+            if "DESERIALIZE_USTRING" not in (a.get("ms") or []) or const(a.get("rhs")) == 0:
+                continue
+            rp = path(strip(a.get("rhs")))
+            lp = path(strip(a.get("lhs")))
+            if rp is None or lp is None or not re.match(r"^\w+$", rp):
+                continue
+            if re.match(r"^\w+$", lp):
+                fields = set(local_fields.get(lp, ()))
+            else:
+                fields = {last(lp)}
+            rseq.append((rorder.get(b.id, 1 << 30), i, a.get("l"), fields))
+        rseq.sort(key=lambda t: t[:2])
+        if not wseq or len(wseq) != len(rseq):
+            raise Broken("%s writes %d strings, %s reads %d" % (wn, len(wseq), rn, len(rseq)))
+        n_pairs += 1
+        bad = None
+        for k, (w, r_) in enumerate(zip(wseq, rseq)):
+            if not (w[3] & r_[3]):
+                bad = (k, w, r_)
+                break
+        # a reader slot that can only be one field must get that field
+        if bad is None:
+            for k, (w, r_) in enumerate(zip(wseq, rseq)):
+                if len(r_[3]) == 1 and len(w[3]) == 1 and w[3] != r_[3]:
+                    bad = (k, w, r_)
+                    break
+        if bad is None:
+            rule.ok("%s/%s" % (wn, rn), "strings in order: %s" % ", ".join("/".join(sorted(w[3])) for w in wseq))
+        else:
+            k, w, r_ = bad
+            rule.violation(wf.file, wn, w[2], "string-order:%s" % wn,
+                           "string #%d written by %s (L%s) is `%s`, but %s stores string #%d (L%s) into `%s`: the two "
+                           "functions disagree on the order of the strings of one object"
+                           % (k + 1, wn, w[2], "/".join(sorted(w[3])), rn, k + 1, r_[2], "/".join(sorted(r_[3])) or "?"))
+    return n_pairs
+
+
+def sign_source_rule(prog, rule):
+    """The sign of a number is not a stored column: when a value is read back, it is recomputed.  Of the stored
+    fields only the text (leading '-') and the numeric column carry it; the digit strings are magnitudes (premise checked
+    below: cif_value_get_number negates the digits-derived magnitude by the sign) and the scale is an exponent."""
+    CARRIERS = ("text",)             # as_numb.text; the double column is not exact: "-0" and "-0.0(1)" store a value that is not < 0
+    MAGNITUDES = ("digits", "su_digits", "scale")
+    n = 0
+    # premise: the digit string is a magnitude
+    gn = prog.fn("cif_value_get_number")
+    prem = False
+    for (b, i, r, c) in gn.eval_sites("cond"):
+        cp = [path(strip(x)) or "" for x in walk(c.get("c"))]
+        if any(x.endswith("sign") for x in cp):
+            t, e = strip(c.get("then")), strip(c.get("else"))
+            neg = [x for x in (t, e) if isinstance(x, dict) and x.get("k") == "un" and x.get("op") == "-"]
+            if len(neg) == 1:
+                prem = True
+    if not prem:
+        raise Broken("cif_value_get_number no longer applies the sign to a digits-derived magnitude: the premise of the sign-source "
+                     "rule (digit strings carry no sign) has to be re-established by reading")
+    rule.ok("premise:digits-are-a-magnitude", "cif_value_get_number negates the magnitude computed from the digit string when sign < 0")
+    n += 1
+    for fn in prog.all_functions():
+        for (b, i, r, a) in fn.eval_sites("asg"):
+            lp = path(strip(a.get("lhs"))) or ""
+            if not lp.endswith("as_numb.sign") or "GET_VALUE_PROPS" not in (a.get("ms") or []):
+                continue
+            n += 1
+            reads, carriers, mags = set(), set(), set()
+            for x in walk(a.get("rhs")):
+                px = path(strip(x)) if x.get("k") in ("member", "ref") else None
+                if px and "as_numb." in px:
+                    f = px.rsplit("as_numb.", 1)[1]
+                    reads.add(f)
+            carriers |= {f for f in reads if f in CARRIERS}
+            mags = {f for f in reads if f in MAGNITUDES}
+            if carriers:
+                rule.ok("%s:L%s" % (fn.name, a.get("l")), "sign recomputed from %s" % ", ".join(sorted(carriers)))
+            else:
+                rule.violation(fn.file, fn.name, a.get("l"), "sign-from-non-carrier:%s" % fn.name,
+                               "the sign of a number read back from storage is computed from %s, which carry no sign (the stored text "
+                               "does): negative numbers come back positive"
+                               % (", ".join("as_numb." + m for m in sorted(mags)) or "no stored field"))
+    return n
 
 
 READER_MACROS = ("DESERIALIZE", "DESERIALIZE_USTRING", "DESERIALIZE_QUOTED_FLAG", "GET_VALUE_PROPS", "GET_COLUMN_STRING",
